@@ -1171,3 +1171,15 @@ T('C01', 'twin-null-table-generator', TB,
 M('C20', 'module-level-compiler-reused', CO,
   "    return Compiler(context).compile(statement, parameters)", "    global _COMPILER\n    if _COMPILER is None or _COMPILER.context is not context:\n        _COMPILER = Compiler(context)\n    return _COMPILER.compile(statement, parameters)\n\n\n_COMPILER = None",
   ('R-COMPILEFN', 'compile'))
+M('C19', 'cmdloop-ends-on-exception', SH,
+  "            except Exception as exc:\n                self.error(render_exception(exc))", "            except Exception as exc:\n                self.error(render_exception(exc))\n                break",
+  ('R-CMDLOOP', 'DispatchingShell.cmdloop'))
+M('C11', 'notes-table-lists-documents', SB,
+  "    name = 'notes'\n    datatype = data.Note", "    name = 'notes'\n    datatype = data.Document",
+  ('R-TABLESOURCE', '#notes'))
+M('C06', 'ordering-accepts-ascending-word', GR,
+  "    = ['DESC' | 'ASC']", "    = ['DESC' | 'ASC' | 'ASCENDING']",
+  ('R-CLAUSELANG', 'grammar:order'))
+M('C06', 'limit-before-pivot', GR,
+  "      ['PIVOT' 'BY' pivot_by:pivotby]\n      ['LIMIT' limit:integer]", "      ['LIMIT' limit:integer]\n      ['PIVOT' 'BY' pivot_by:pivotby]",
+  ('R-CLAUSELANG', 'grammar:select'))
